@@ -80,8 +80,14 @@ def gen_history(rnd, pairs, hid):
         k = rnd.randrange(100)
         which = rnd.choice(["1", "2"])
         if k < 22:
-            state = rnd.choice(["absent", "empty", "short", "longer", "longer", "other_report", "readonly", "directory"])
+            state = rnd.choice(["absent", "empty", "short", "longer", "longer", "other_report", "readonly", "directory",
+                                "same_report_leading_blank", "same_report_crlf", "same_report_one_byte_off", "same_report_plus_newline"])
+            if state.startswith("same_report"):
+                # needs the report of this pair (any earlier successful validate gives it) and a re-run of the same pair on OUT
+                steps.append({"op": "run", "argv": ["validate", "p%s.yaml" % which, "d%s.jsonld" % which]})
             steps.append({"op": "env", "what": "out_state", "path": "/work/" + out, "state": state, "fill": rnd.choice(["X", "}", "Z9"]), "extra": rnd.randrange(1, 4000), "which": which})
+            if state.startswith("same_report"):
+                steps.append({"op": "run", "argv": ["validate", "p%s.yaml" % which, "d%s.jsonld" % which, out]})
         elif k < 60:
             st = {"op": "run", "argv": ["validate", "p%s.yaml" % which, "d%s.jsonld" % which, out]}
             f = rnd.randrange(100)
@@ -182,6 +188,20 @@ class Exec:
                     elif state == "other_report":
                         other = lastreport.get("2" if st["which"] == "1" else "1")
                         disk.put(path, other if other else b"[\n  {\n    \"old\": \"report\"\n  }\n]\n" * 40)
+                    elif state.startswith("same_report"):
+                        # the file already holds (almost) the report the next run of this pair will write
+                        same = lastreport.get(st["which"])
+                        if not same:
+                            disk.put(path, b"")
+                        elif state == "same_report_leading_blank":
+                            disk.put(path, b"\n" + same)
+                        elif state == "same_report_crlf":
+                            disk.put(path, same.replace(b"\n", b"\r\n"))
+                        elif state == "same_report_plus_newline":
+                            disk.put(path, same + b"\n")
+                        else:
+                            k = len(same) // 2
+                            disk.put(path, same[:k] + (b"X" if same[k:k + 1] != b"X" else b"Y") + same[k + 1:])
                     elif state == "readonly":
                         disk.put(path, b"read-only prior content\n", 0o444)
                     elif state == "directory":
@@ -339,6 +359,20 @@ def real_replay(sc, acv_plain, ex, h, simrec):
                     elif state == "other_report":
                         other = lastreport.get("2" if st["which"] == "1" else "1")
                         open(p, "wb").write(other if other else b"[\n  {\n    \"old\": \"report\"\n  }\n]\n" * 40)
+                    elif state.startswith("same_report"):
+                        return None  # the shipped CLI reads the real clock: "the same report" is not reproducible on the real side
+                        same = lastreport.get(st["which"])
+                        if not same:
+                            open(p, "wb").write(b"")
+                        elif state == "same_report_leading_blank":
+                            open(p, "wb").write(b"\n" + same)
+                        elif state == "same_report_crlf":
+                            open(p, "wb").write(same.replace(b"\n", b"\r\n"))
+                        elif state == "same_report_plus_newline":
+                            open(p, "wb").write(same + b"\n")
+                        else:
+                            k = len(same) // 2
+                            open(p, "wb").write(same[:k] + (b"X" if same[k:k + 1] != b"X" else b"Y") + same[k + 1:])
                     elif state == "directory":
                         os.makedirs(p)
                     elif state == "readonly":
